@@ -330,6 +330,24 @@ func (g *scenGen) genUnk() *Item {
 			return it
 		}
 	}
+	if g.r.Chance(1, 14) {
+		// `no-` in front of (a prefix of) declared names: no declared option is called that
+		var cands []string
+		for _, k := range g.node.SortedKeys() {
+			if k != "-" && RuneCount(k) >= 1 {
+				rs := Runes(k)
+				cands = append(cands, "no-"+strings.Join(rs[:g.r.Range(0, len(rs))], ""))
+			}
+		}
+		if len(cands) > 0 {
+			n := g.r.Pick(cands)
+			if g.unkOK(n) {
+				it.Tokens = []string{"--" + n}
+				it.UnkNames = []string{n}
+				return it
+			}
+		}
+	}
 	if g.r.Chance(1, 12) {
 		// a declared name followed by `:text`: the colon is part of the name, no declared option is called that
 		var cands []string
